@@ -741,6 +741,14 @@ def norm(t, _arith=True):  # noqa: C901, PLR0911, PLR0912
             # the consumer only iterates its argument: a list/tuple copy or a list comprehension in place of a
             # generator makes no difference
             t = ("call", f, (_iterated(t[2][0]), *t[2][1:]), t[3])
+        if name == "builtins.list" and len(t[2]) == 1 and not t[3] and is_term(t[2][0]) and t[2][0][0] == "comp" and t[2][0][1] == "gen" \
+                and len(t[2][0]) == 4:
+            return norm(("comp", "list", t[2][0][2], t[2][0][3]))  # list(f(x) for x in xs) is [f(x) for x in xs]
+        if name == "builtins.zip" and any(is_term(a) and a[0] == "call" and is_term(a[1]) and a[1][0] == "attr" and a[1][2] == "keys"
+                                          and not a[2] and not a[3] for a in t[2]):
+            # iterating a mapping is iterating its keys
+            t = ("call", f, tuple(a[1][1] if (is_term(a) and a[0] == "call" and is_term(a[1]) and a[1][0] == "attr" and a[1][2] == "keys"
+                                              and not a[2] and not a[3]) else a for a in t[2]), t[3])
         if name == "functools.reduce" and len(t[2]) >= 2:
             t = ("call", f, (t[2][0], _iterated(t[2][1]), *t[2][2:]), t[3])  # reduce only iterates its second argument
         if name == "builtins.zip" and any(k == "strict" for k, _ in t[3]):
